@@ -72,6 +72,8 @@ func (k *kase) machine() (*archT, *Machine, error) {
 			m.Mem.Over[addr+uint64(i/2)] = byte(b)
 		}
 	}
+	// the instruction itself is part of memory (a load from [pc, pc+4) sees it)
+	m.Mem.Put(m.PC, 4, uint64(k.word()))
 	return a, m, nil
 }
 
